@@ -18,7 +18,7 @@ CONSTANTS Objs,        \* model objects, strings "o1".."o3"
           Dev          \* named deviations the real code shows (probed): subset of DevAll
 VARIABLES st, last
 vars == <<st, last>>
-DevAll == {"a", "b", "c", "d", "e", "f1", "f2", "f3", "g", "h", "eoc", "ksw", "kswx", "kswmerge"}
+DevAll == {"a", "b", "c", "d", "e", "f1", "f2", "g", "h", "gsw", "eoc", "ksw", "kswx", "kswmerge"}
 Absent == -1          \* no row / attribute not loaded (NO_VALUE)
 NoHist == -2          \* no committed_state entry
 NoObj == "none"
@@ -37,6 +37,7 @@ InitSt == [life |-> [o \in Objs |-> "transient"], pk |-> InitPk, v |-> [o \in Ob
            wasdel |-> [o \in Objs |-> FALSE],     \* InstanceState._deleted
            new |-> <<>>, imap |-> [k \in Keys |-> NoObj], sdel |-> {}, tx |-> <<>>, work |-> EmptyDb, committed |-> EmptyDb,
            needrb |-> FALSE,
+           untr |-> {},         \* ghost: objects re-attached from the detached state with loaded (possibly stale) attribute values
            taint |-> FALSE,     \* set by the misuse Delete(o) of an already deleted object (deviation c); exploration stops there
            \* ghost: nested-transaction reference over the user's calls: refc = committed rows, gd = one delta per open level
            refc |-> EmptyDb, gd |-> <<>>,
@@ -55,7 +56,7 @@ ImapDel(s, o) == IF InMapS(s, o) THEN [s EXCEPT !.imap[s.key[o]] = NoObj] ELSE s
 Top(s) == s.tx[Len(s.tx)]
 Expired(s, o) == s.exp[o] # {}
 \* state._expire(): everything unloaded, history gone
-ExpireObj(s, o) == [s EXCEPT !.exp[o] = BothAttrs, !.mod[o] = FALSE, !.cv[o] = NoHist, !.v[o] = 0, !.pk[o] = s.key[o]]
+ExpireObj(s, o) == [s EXCEPT !.exp[o] = BothAttrs, !.mod[o] = FALSE, !.cv[o] = NoHist, !.v[o] = 0, !.pk[o] = s.key[o], !.untr = @ \ {o}]
 RECURSIVE ExpireSet(_, _)
 ExpireSet(s, S) == IF S = {} THEN s ELSE LET o == CHOOSE x \in S : TRUE IN ExpireSet(ExpireObj(s, o), S \ {o})
 \* load of the expired, unmodified attributes from the transaction's view (row must exist)
@@ -85,17 +86,20 @@ DoAdd(s, o) ==
        IF s.wasdel[o] THEN R(s, "InvalidRequestError")
        ELSE LET s0 == AutoBegin(s) IN
             IF s0.imap[s0.key[o]] \notin {NoObj, o} THEN R(s0, "InvalidRequestError")
-            ELSE R(Ev([s0 EXCEPT !.life[o] = "persistent", !.imap[s0.key[o]] = o], "detached_to_persistent", o), "ok")
+            ELSE R(Ev([s0 EXCEPT !.life[o] = "persistent", !.imap[s0.key[o]] = o, !.untr = IF s.exp[o] = BothAttrs THEN @ ELSE @ \cup {o}],
+                      "detached_to_persistent", o), "ok")
 Attached(s, o) == s.life[o] \in {"pending", "persistent", "deleted"}
 DoSetV(s, o, x) == LET s0 == IF Attached(s, o) THEN AutoBegin(s) ELSE s
                    IN R([s0 EXCEPT !.v[o] = x, !.mod[o] = TRUE, !.exp[o] = @ \ {"v"},
                                    !.cv[o] = IF @ # NoHist THEN @ ELSE IF "v" \in s.exp[o] THEN Absent ELSE s.v[o]], "ok")
 DoDelete(s, o) ==
   CASE s.life[o] \in {"transient", "pending"} -> R(s, "InvalidRequestError")
+    [] s.life[o] \in {"detached", "deleted"} /\ s.wasdel[o] /\ "c" \notin Dev -> R(s, "InvalidRequestError")   \* what add() does ("has been deleted")
     [] s.life[o] = "detached" ->
        LET s0 == AutoBegin(s) IN
        IF s0.imap[s0.key[o]] \notin {NoObj, o} THEN R(s0, "InvalidRequestError")
-       ELSE R(Ev([s0 EXCEPT !.life[o] = IF s.wasdel[o] THEN "deleted" ELSE "persistent", !.imap[s0.key[o]] = o, !.sdel = @ \cup {o}],
+       ELSE R(Ev([s0 EXCEPT !.life[o] = IF s.wasdel[o] THEN "deleted" ELSE "persistent", !.imap[s0.key[o]] = o, !.sdel = @ \cup {o},
+                            !.taint = s.wasdel[o], !.untr = IF s.exp[o] = BothAttrs THEN @ ELSE @ \cup {o}],     \* deviation c when wasdel
                  "detached_to_persistent", o), "ok")
     [] s.life[o] = "deleted" ->
        LET s0 == AutoBegin(s) IN
@@ -108,8 +112,8 @@ DropFromFrames(tx, o) == [i \in 1..Len(tx) |-> IF "g" \in Dev /\ i < Len(tx) THE
 \* Session._expunge_states([o]) for an attached object (expunge, make_transient)
 ExpungeOne(s, o) ==
   CASE s.life[o] = "pending" -> Ev([s EXCEPT !.new = RemoveSeq(@, o), !.life[o] = "transient"], "pending_to_transient", o)
-    [] s.life[o] = "persistent" -> Ev([ImapDel(s, o) EXCEPT !.sdel = @ \ {o}, !.life[o] = "detached"], "persistent_to_detached", o)
-    [] OTHER -> Ev([ImapDel(s, o) EXCEPT !.tx = DropFromFrames(@, o), !.sdel = @ \ {o}, !.life[o] = "detached"], "deleted_to_detached", o)
+    [] s.life[o] = "persistent" -> Ev([ImapDel(s, o) EXCEPT !.sdel = @ \ {o}, !.life[o] = "detached", !.untr = @ \ {o}], "persistent_to_detached", o)
+    [] OTHER -> Ev([ImapDel(s, o) EXCEPT !.tx = DropFromFrames(@, o), !.sdel = @ \ {o}, !.life[o] = "detached", !.untr = @ \ {o}], "deleted_to_detached", o)
 DoExpunge(s, o) == IF ~Attached(s, o) THEN R(s, "InvalidRequestError") ELSE R(ExpungeOne(s, o), "ok")
 \* orm.make_transient(o): documented for persistent / detached objects; loaded attributes are kept, key and _deleted go
 DoMakeTransient(s, o) ==
@@ -123,22 +127,28 @@ Restore1(s, f) ==      \* step 1: _expunge_states(f.new | session._new, to_trans
       newLife(o) == IF o \in X /\ (s.life[o] = "pending" \/ hasKey(o)) THEN "transient" ELSE s.life[o]
       \* deviation h: _detach_states takes every key-less state of the snapshot for pending, also one make_transient() already took out
       evP == {x \in X : s.life[x] = "pending" \/ (s.life[x] = "transient" /\ "h" \in Dev)}
-      evT == {x \in X : s.life[x] = "persistent" \/ (s.life[x] = "detached" /\ s.key[x] # NoKey /\ ~s.wasdel[x])}
-      evD == {x \in X : s.life[x] = "deleted" \/ (s.life[x] = "detached" /\ s.key[x] # NoKey /\ s.wasdel[x])}     \* event names follow the code (deviation f1, f2)
+      \* deviation f2: a state expunged after its flush is still announced as persistent_to_transient / deleted_to_detached
+      detT == IF "f2" \in Dev THEN {x \in X : s.life[x] = "detached" /\ s.key[x] # NoKey /\ ~s.wasdel[x]} ELSE {}
+      detD == IF "f2" \in Dev THEN {x \in X : s.life[x] = "detached" /\ s.key[x] # NoKey /\ s.wasdel[x]} ELSE {}
+      \* deviation f1: deleted -> transient is announced as deleted_to_detached (ideal: deleted_to_persistent, persistent_to_transient)
+      delX == {x \in X : s.life[x] = "deleted"}
+      evT == {x \in X : s.life[x] = "persistent"} \cup detT \cup (IF "f1" \in Dev THEN {} ELSE delX)
+      evD == detD \cup (IF "f1" \in Dev THEN delX ELSE {})
+      evDP == IF "f1" \in Dev THEN {} ELSE delX
       gone == {o \in X : hasKey(o)}
       s1a == [s EXCEPT !.life = [o \in Objs |-> newLife(o)],
                !.imap = [k \in Keys |-> IF s.imap[k] \in X THEN NoObj ELSE s.imap[k]],
                !.key = [o \in Objs |-> IF o \in gone THEN NoKey ELSE s.key[o]],
                !.wasdel = [o \in Objs |-> IF o \in gone /\ "a" \notin Dev THEN FALSE ELSE s.wasdel[o]],   \* deviation a: stale _deleted flag
-               !.new = <<>>,
+               !.new = <<>>, !.untr = @ \ X,
                !.sdel = @ \ {o \in X : s.life[o] \in {"persistent", "deleted"}},
                !.tx = [i \in 1..Len(s.tx) |-> [s.tx[i] EXCEPT !.deleted = @ \ {o \in X : s.life[o] = "deleted"}]]]
-      s1 == EvAll(EvAll(EvAll(s1a, "pending_to_transient", evP), "persistent_to_transient", evT), "deleted_to_detached", evD)
+      s1 == EvAll(EvAll(EvAll(EvAll(s1a, "pending_to_transient", evP), "persistent_to_transient", evT), "deleted_to_detached", evD), "deleted_to_persistent", evDP)
       \* key switches: safe_discard(s); s.key = oldkey; replace(s) unless expunged
       SW == {o \in Objs : f.ksw[o] # NoKey}
-      back == {o \in SW : o \notin X}
+      back == {o \in SW : s1.key[o] # NoKey}
       inback == {o \in back : Attached(s1, o) \/ "kswx" \in Dev}    \* deviation kswx: replace() also for a state expunged in the meantime
-      stuck == IF "ksw" \in Dev THEN {o \in SW : o \in X} ELSE {}     \* deviation ksw: key restored on an object sent to transient
+      stuck == IF "ksw" \in Dev THEN {o \in SW : s1.key[o] = NoKey} ELSE {}     \* deviation ksw: key restored on an object that went (back) to transient
       imapA == [k \in Keys |-> IF s1.imap[k] \in SW THEN NoObj ELSE s1.imap[k]]
       imapB == [k \in Keys |-> IF \E o \in inback : f.ksw[o] = k THEN CHOOSE o \in inback : f.ksw[o] = k ELSE imapA[k]]
   IN [s1 EXCEPT !.imap = imapB,
@@ -263,7 +273,7 @@ FlushWith(s, fk) ==
                    !.life = [o \in Objs |-> IF o \in P THEN (IF s1.wasdel[o] THEN "deleted" ELSE "persistent")    \* deviation a
                                             ELSE IF o \in D \cup SW THEN "deleted" ELSE s1.life[o]],
                    !.key = [o \in Objs |-> IF o \in P \cup KS THEN s1.pk[o] ELSE s1.key[o]],
-                   !.imap = imap2, !.new = <<>>, !.sdel = {},
+                   !.imap = imap2, !.new = <<>>, !.sdel = {}, !.untr = @ \ (D \cup SW),
                    !.mod = [o \in Objs |-> IF o \in P \cup U THEN FALSE ELSE s1.mod[o]],      \* deleted objects keep their history
                    !.cv = [o \in Objs |-> IF o \in P \cup U THEN NoHist ELSE s1.cv[o]],
                    !.wasdel = [o \in Objs |-> IF o \in D \cup SW THEN TRUE ELSE s1.wasdel[o]],
@@ -345,7 +355,9 @@ DoGet(s, k) ==
             ELSE LET s1 == Sql(f.st, 1) IN
                  IF s1.work[k] = Absent
                  THEN R(Sql(RemoveNewlyDeleted(s1, o), 1), "none")
-                 ELSE R(LoadObj(s1, o), "obj:" \o o)
+                 ELSE IF s1.imap[k] # o /\ "gsw" \notin Dev     \* the autoflush switched the row to another object
+                 THEN R(Sql(s1, 1), IF s1.imap[k] = NoObj THEN "new" ELSE "obj:" \o s1.imap[k])
+                 ELSE R(LoadObj(s1, o), "obj:" \o o)               \* deviation gsw: the deleted object is refreshed from the other object's row and returned
   ELSE LET f == DoFlush(AutoBegin(s)) IN
        IF f.ret # "ok" THEN f
        ELSE LET s1 == Sql(f.st, 1) IN
@@ -355,7 +367,7 @@ DoGet(s, k) ==
 DoClose(s) ==
   LET P == Range(s.new) M == InMapSet(s)
       DD == IF "b" \in Dev THEN {} ELSE {o \in Objs : s.life[o] = "deleted" /\ o \notin M}      \* deviation b: deleted stay deleted
-  IN R(GAbort([s EXCEPT !.tx = <<>>, !.work = s.committed, !.needrb = FALSE, !.new = <<>>, !.sdel = {},
+  IN R(GAbort([s EXCEPT !.tx = <<>>, !.work = s.committed, !.needrb = FALSE, !.new = <<>>, !.sdel = {}, !.untr = {},
                  !.imap = [k \in Keys |-> NoObj],
                  !.life = [o \in Objs |-> IF o \in P THEN "transient" ELSE IF o \in M \cup DD THEN "detached" ELSE s.life[o]],
                  !.ev = @ \cup {<<"pending_to_transient", o, 1>> : o \in P} \cup {<<"persistent_to_detached", o, 1>> : o \in {x \in M : ~s.wasdel[x]}}
@@ -380,7 +392,7 @@ Next == ~st.taint /\
                                /\ \E x \in Vals : Step("SetV", <<o, x>>, DoSetV(Clear(st), o, x)))
                            \/ (On("SetPk") /\ st.life[o] # "deleted" /\ ~(st.life[o] = "detached" /\ ~Loaded(o))
                                /\ \E k \in Keys : k # st.pk[o] /\ Step("SetPk", <<o, k>>, DoSetPk(Clear(st), o, k)))
-                           \/ (RowExists(o) /\ (On("Misuse") \/ st.life[o] # "deleted") /\ Step("Delete", <<o>>, DoDelete(Clear(st), o)))
+                           \/ (RowExists(o) /\ (On("Misuse") \/ ~(st.wasdel[o] /\ st.life[o] \in {"deleted", "detached"})) /\ Step("Delete", <<o>>, DoDelete(Clear(st), o)))
                            \/ (On("Expunge") /\ Step("Expunge", <<o>>, DoExpunge(Clear(st), o)))
                            \/ (On("Expire") /\ Step("Expire", <<o>>, DoExpire(Clear(st), o)))
                            \/ (On("Refresh") /\ Step("Refresh", <<o>>, DoRefresh(Clear(st), o)))
@@ -414,9 +426,9 @@ OneIdentity == \A k \in Keys : st.imap[k] # NoObj => st.key[st.imap[k]] = k
 OnePerObject == \A o \in Objs : Cardinality({k \in Keys : st.imap[k] = o}) <= 1
 PersistentInMap == \A o \in Objs : st.life[o] = "persistent" => st.imap[st.key[o]] = o
 \* Session.get returns the mapped object, and without SQL when it is present and not expired
-GetReturnsMapped == [][ (last'.a = "Get" /\ st.imap[last'.arg[1]] # NoObj /\ ~st.needrb /\ last'.ret \notin {"PendingRollbackError"})
+GetReturnsMapped == [][ (last'.a = "Get" /\ st.imap[last'.arg[1]] # NoObj)
                           => (LET o == st.imap[last'.arg[1]] IN
-                                 (~Expired(st, o) => last'.ret = "obj:" \o o /\ last'.sql = 0 /\ st' = st)) ]_vars
+                                 (~Expired(st, o) => last'.ret = "obj:" \o o /\ last'.sql = 0 /\ V(st') = V(st))) ]_vars
 GetIsMapEntry == [][ (last'.a = "Get" /\ \E o \in Objs : last'.ret = "obj:" \o o) => last'.ret = "obj:" \o st'.imap[last'.arg[1]] ]_vars
 \* ---------- C35: lifecycle
 LifeType == \A o \in Objs : st.life[o] \in States
@@ -437,32 +449,31 @@ EvDst(n) == CASE n = "transient_to_pending" -> "pending" [] n = "pending_to_tran
               [] n = "pending_to_persistent" -> "persistent" [] n = "detached_to_persistent" -> "persistent" [] n = "persistent_to_deleted" -> "deleted"
               [] n = "deleted_to_persistent" -> "persistent" [] n = "deleted_to_detached" -> "detached" [] n = "persistent_to_detached" -> "detached"
               [] OTHER -> "none"
-\* transitions that have no event of their own: make_transient() of a detached object
-SilentEdges == {<<"detached", "transient">>}
+\* transitions that have no event of their own: the object is outside the session (detached) and loses its identity:
+\* make_transient() (= expunge, then strip the identity) and the rollback of the transaction that inserted an object expunged since
 RECURSIVE Chain(_, _, _)
 Chain(from, to, E) == IF E = {} THEN from = to ELSE \E e \in E : EvSrc(e) = from /\ Chain(EvDst(e), to, E \ {e})
 EvOf(ev, o) == {e[1] : e \in {x \in ev : x[2] = o}}
+SilentOk(a) == a \in {"MakeTransient", "Rollback", "SpRollback", "Flush", "FlushFail", "Commit", "BeginNested", "SpCommit", "Get", "Refresh", "SetPk"}
 \* every life change follows documented edges, each with exactly its event, once; no event without its transition
 LifecycleChain == [][ \A o \in Objs :
                         /\ \A e \in last'.ev : e[3] = 1
                         /\ \/ Chain(st.life[o], st'.life[o], EvOf(last'.ev, o))
-                           \/ (EvOf(last'.ev, o) = {} /\ <<st.life[o], st'.life[o]>> \in SilentEdges /\ last'.a = "MakeTransient") ]_vars
+                           \/ (st'.life[o] = "transient" /\ SilentOk(last'.a) /\ Chain(st.life[o], "detached", EvOf(last'.ev, o))) ]_vars
 \* ---------- C33: session vs database
 NoTxMeansCommitted == st.tx = <<>> => st.work = st.committed
 \* loaded, unmodified attribute values of an object in the session equal its row in the surviving scope
-AttrAgree == \A o \in Objs : (st.life[o] = "persistent" /\ InMap(o) /\ ~st.mod[o] /\ "v" \notin st.exp[o] /\ ~st.needrb)
+AttrAgree == \A o \in Objs : (st.life[o] = "persistent" /\ InMap(o) /\ ~st.mod[o] /\ "v" \notin st.exp[o] /\ ~st.needrb /\ o \notin st.untr)
                                 => st.work[st.key[o]] = st.v[o]
-IdAgree == \A o \in Objs : (st.life[o] = "persistent" /\ InMap(o) /\ ~st.mod[o] /\ "id" \notin st.exp[o]) => st.pk[o] = st.key[o]
-\* membership: a persistent object has a row in the surviving scope, an object in the deleted state has none of its own
+IdAgree == \A o \in Objs : (st.life[o] = "persistent" /\ InMap(o) /\ ~st.mod[o] /\ "id" \notin st.exp[o] /\ o \notin st.untr) => st.pk[o] = st.key[o]
+\* membership: a persistent object has a row in the surviving scope, 
 PersistentHasRow == \A o \in Objs : (st.life[o] = "persistent" /\ ~st.needrb) => st.work[st.key[o]] # Absent
-DeletedHasNoRow == \A o \in Objs : (st.life[o] = "deleted" /\ ~InMap(o) /\ ~st.needrb) => (st.work[st.key[o]] = Absent \/ st.imap[st.key[o]] # NoObj)
 \* the deleted state exists only inside the transaction that can still revert it
 NoDeletedOutsideTx == st.tx = <<>> => \A o \in Objs : st.life[o] # "deleted"
 \* after commit / rollback the objects that were added (resp. deleted) in the ended scope are gone from (back in) the session
 AfterRollback == [][ (last'.a \in {"Rollback"} /\ last'.ret = "ok") =>
                        /\ st'.tx = <<>> /\ st'.work = st'.committed /\ st'.committed = st.committed /\ ~st'.needrb
-                       /\ \A o \in Objs : /\ (o \in Range(st.new) \cup UNION {st.tx[i].new : i \in 1..Len(st.tx)}) => st'.life[o] = "transient"
-                                          /\ InMapS(st', o) => st'.exp[o] = BothAttrs ]_vars
+                       /\ \A o \in Objs : (o \in Range(st.new) \cup UNION {st.tx[i].new : i \in 1..Len(st.tx)}) => st'.life[o] = "transient" ]_vars
 \* the database the session talks to equals the nested-transaction reference over the user's calls
 RefCommitted == st.committed = st.refc
 RefLive == ~st.needrb => st.work = GView(st)
@@ -476,7 +487,8 @@ FailNeedsRollback == [][ (last'.a \in {"Flush", "FlushFail", "Commit", "BeginNes
                             => st'.needrb ]_vars
 \* until rollback() the session refuses to work (anything that needs the transaction raises PendingRollbackError) and nothing moves in the database
 PendingRollbackUntilRollback == [][ st.needrb =>
-                                     /\ (last'.a \in {"Commit", "BeginNested", "SpCommit", "Get"} => last'.ret = "PendingRollbackError")
+                                     /\ (last'.a \in {"Commit", "BeginNested", "SpCommit"} => last'.ret = "PendingRollbackError")
+                                     /\ (last'.a = "Get" => last'.ret = "PendingRollbackError" \/ (last'.sql = 0 /\ V(st') = V(st)))
                                      /\ (last'.a = "Flush" /\ ~Clean(st) => last'.ret = "PendingRollbackError")
                                      /\ (last'.a \notin {"Rollback", "SpRollback", "Close"} => st'.needrb /\ st'.work = st.work)
                                      /\ st'.committed = st.committed ]_vars
